@@ -158,6 +158,9 @@ VARIANTS = [
     V("auto plan: proposal guard consults reindex with the wrong polarity", ("C19",), "R-AUTOPARAM", "core.py", '        if (not any_by_dask and method is None and not reindex.blockwise) or method == "cohorts":', '        if (not any_by_dask and method is None and reindex.blockwise) or method == "cohorts":', must_mention="reindex"),
     V("twin: proposal guard leaves reordered", ("C19",), "", "core.py", '        if (not any_by_dask and method is None and not reindex.blockwise) or method == "cohorts":', '        if (method is None and not reindex.blockwise and not any_by_dask) or method == "cohorts":', expect="silent"),
     V("auto plan: arg reductions always sent to cohorts, even with the proposal pinned", ("C19",), "R-AUTOPARAM", "core.py", '        if _is_arg_reduction(agg) and preferred_method == "blockwise":\n            return "cohorts"\n', '        if _is_arg_reduction(agg):\n            return "cohorts"\n', must_mention="pinned"),
+    V("arg-reduction shortcut hands the tuple of intermediates on, counts are appended later", ("C19",), "R-SEQKIND", "core.py", '                "intermediates": list(array_idx),', '                "intermediates": array_idx,', must_mention="tuple"),
+    V("twin: intermediates unpacked into a list display", ("C19",), "", "core.py", '                "intermediates": list(array_idx),', '                "intermediates": [*array_idx],', expect="silent"),
+    V("blockwise result slots built as a tuple, arg index rewritten in place", ("C19",), "R-SEQKIND", "core.py", '    results: IntermediateDict = {"groups": [], "intermediates": []}\n', '    results: IntermediateDict = {"groups": [], "intermediates": ()}\n', must_mention="tuple"),
     V("dtype promotion memoised with an untyped key", ("C14",), "R-MEMO", "xrdtypes.py", '        dtype = np.result_type(dtype, fill_value)\n    return dtype\n',
       '        dtype = _promote_for_fill_value(dtype, fill_value)\n    return dtype\n\n\n@functools.lru_cache\ndef _promote_for_fill_value(dtype: np.dtype, fill_value) -> np.dtype:\n    return np.result_type(dtype, fill_value)\n', must_mention="typed"),
     V("twin: dtype promotion memoised with typed=True", ("C14",), "", "xrdtypes.py", '        dtype = np.result_type(dtype, fill_value)\n    return dtype\n',
